@@ -53,6 +53,14 @@ func simpleOp(method string, tmpl []aspec.Seg) aspec.Op {
 
 // mount renames variables by position and prepends literal prefix segments.
 func mount(prefix []string, t []aspec.Seg) []aspec.Seg {
+	return mountNamed(prefix, t, "x")
+}
+
+// varLetters: templates of one set get different variable names for the same position (and names that
+// sort before and after literal segments), as real specs do: /{account}/{kind}/items next to /{org}/admin.
+var varLetters = []string{"x", "org", "account", "zeta", "Kind", "b", "m_id"}
+
+func mountNamed(prefix []string, t []aspec.Seg, letter string) []aspec.Seg {
 	var out []aspec.Seg
 	for _, p := range prefix {
 		out = append(out, aspec.Seg{K: "lit", S: p})
@@ -61,7 +69,7 @@ func mount(prefix []string, t []aspec.Seg) []aspec.Seg {
 	for _, s := range t {
 		if s.K == "var" {
 			n++
-			out = append(out, aspec.Seg{K: "var", S: fmt.Sprintf("x%d", n)})
+			out = append(out, aspec.Seg{K: "var", S: fmt.Sprintf("%s%d", letter, n)})
 		} else {
 			out = append(out, s)
 		}
@@ -130,6 +138,32 @@ func checkC03(c *core.Check) {
 	}
 	rng := rand.New(rand.NewSource(c.Seed))
 	rng.Shuffle(len(sets), func(i, j int) { sets[i], sets[j] = sets[j], sets[i] })
+	// stratified sample: sets whose templates interact (same length, unifiable: some request matches both, or they
+	// share a variable prefix and then diverge literal / variable) come first - that is where precedence,
+	// fall-back and tree-construction order matter; the rest follows
+	sort.SliceStable(sets, func(i, j int) bool { return interacting(sets[i]) && !interacting(sets[j]) })
+	{
+		var inter, rest []tset
+		for _, s := range sets {
+			if interacting(s) {
+				inter = append(inter, s)
+			} else {
+				rest = append(rest, s)
+			}
+		}
+		var mixed []tset
+		for len(inter) > 0 || len(rest) > 0 {
+			for k := 0; k < 2 && len(inter) > 0; k++ {
+				mixed = append(mixed, inter[0])
+				inter = inter[1:]
+			}
+			if len(rest) > 0 {
+				mixed = append(mixed, rest[0])
+				rest = rest[1:]
+			}
+		}
+		sets = mixed
+	}
 	nPacked, nRoot, depth := 48, 8, 4
 	if thorough {
 		nPacked, nRoot, depth = 600, 40, 5
@@ -157,8 +191,13 @@ func checkC03(c *core.Check) {
 		g := pGroup{Pkg: id, ASpec: a, API: driver.APIConfig{Mw: 1, NotFound: true, Spec: true}}
 		for si := start; si < end; si++ {
 			prefix := fmt.Sprintf("s%04d", si)
-			for _, m := range sets[si].Set {
-				t := mount([]string{prefix}, m.T)
+			for mi, m := range sets[si].Set {
+				// variable names differ between the templates of a set; which template's names sort first alternates
+				li := mi
+				if si%2 == 1 {
+					li = len(sets[si].Set) - 1 - mi
+				}
+				t := mountNamed([]string{prefix}, m.T, []string{"acct", "org", "zeta"}[li%3])
 				pi := aspec.PathItem{Template: t}
 				for _, meth := range m.Ms {
 					pi.Ops = append(pi.Ops, simpleOp(meth, t))
@@ -194,8 +233,8 @@ func checkC03(c *core.Check) {
 			}
 			id := fmt.Sprintf("rt%db%d", k, bi)
 			a := &aspec.ASpec{Base: b, SpecName: "spec.json", Flags: aspec.Flags{APIHandler: true, DoNotEdit: true}, Security: aspec.Sec{K: "none"}}
-			for _, m := range s.Set {
-				t := mount(nil, m.T)
+			for mi, m := range s.Set {
+				t := mountNamed(nil, m.T, varLetters[(k+bi+mi*2)%len(varLetters)])
 				pi := aspec.PathItem{Template: t}
 				for _, meth := range m.Ms {
 					pi.Ops = append(pi.Ops, simpleOp(meth, t))
@@ -238,4 +277,34 @@ func checkC03(c *core.Check) {
 	c.Cov["bounds"] = map[string]any{"template_sets_in_universe": len(sets), "sets_packed": nPacked, "sets_at_root": nRoot, "base_forms": len(bases), "request_depth": depth, "design_cfgs": cfgs}
 	c.Sample(map[string]any{"set": sets[0], "example_request": groups[0].Cases[0]})
 	judgePipeline(c, run, specs, "routing")
+}
+
+// interacting: the set has two templates of equal length that some request path matches both,
+// or that agree on a variable prefix and then diverge.
+func interacting(s tset) bool {
+	for i := 0; i < len(s.Set); i++ {
+		for j := i + 1; j < len(s.Set); j++ {
+			a, b := s.Set[i].T, s.Set[j].T
+			if len(a) != len(b) {
+				continue
+			}
+			unify := true
+			hasVar := false
+			for k := range a {
+				if a[k].K == "lit" && b[k].K == "lit" && a[k].S != b[k].S {
+					unify = false
+				}
+				if a[k].K == "var" || b[k].K == "var" {
+					hasVar = true
+				}
+			}
+			if unify && hasVar {
+				return true
+			}
+			if len(a) >= 3 && a[0].K == "var" && b[0].K == "var" && a[1].K != b[1].K {
+				return true
+			}
+		}
+	}
+	return false
 }
